@@ -3,8 +3,8 @@
    translate or pass on.  Proved for every program, store and fuel (Interp/ScopeProofs.v,
    exec_env, one induction on fuel over the whole interpreter model):
      - break and continue never leave the loop they occur in;
-     - no signal (break, continue, return, interrupt) ever crosses a call: an expression,
-       an assignment or a call ends normally or with an ordinary error;
+     - break, continue and return never cross a call: an expression, an assignment or a call
+       ends normally, with an ordinary error, or with the interrupt of a cancelled context;
    and, directly from the model's definitions, the selection rules of if / switch / loops. *)
 From Coq Require Import String List ZArith Bool Arith.
 From Anko Require Import Base.Assoc Env.EnvModel Interp.Ast Interp.Value Interp.ToX Interp.Equal Interp.Model
@@ -39,7 +39,7 @@ Qed.
    function ended with, the call itself ends normally or with an ordinary (non-signal) error *)
 Theorem no_signal_crosses_a_call : forall orc cancel_at fuel f args callslice s e s',
   exec orc cancel_at fuel (CApply f args callslice) s = Err e s' ->
-  match e with ESentinel _ => False | _ => True end.
+  nonsentinel e.
 Proof.
   intros orc cancel_at fuel f args cs s e s' Hx. pose proof (exec_env orc cancel_at fuel (CApply f args cs) s) as H.
   rewrite Hx in H. cbn [strict_cmd err_pred env_eq] in H. destruct H as [[H _]|[_ H]]; [discriminate|exact H].
@@ -47,7 +47,7 @@ Qed.
 
 Theorem no_signal_comes_out_of_an_expression : forall orc cancel_at fuel x s e s',
   exec orc cancel_at fuel (CExpr x) s = Err e s' ->
-  match e with ESentinel _ => False | _ => True end.
+  nonsentinel e.
 Proof.
   intros orc cancel_at fuel x s e s' Hx. pose proof (exec_env orc cancel_at fuel (CExpr x) s) as H.
   rewrite Hx in H. cbn [strict_cmd err_pred env_eq] in H. destruct H as [[H _]|[_ H]]; [discriminate|exact H].
